@@ -570,6 +570,14 @@ def workload(tier, rng, shard, nshards, work):
     with contextlib.redirect_stdout(io.StringIO()):
         _workload(tier, rng, shard, nshards)
 
+    # objects that carry a history (mutated in place, or produced by earlier operations): the monitors judge every call made on them
+    import contextlib as _cl
+    import io as _io
+    from workloads.histories import run_histories
+
+    with _cl.redirect_stdout(_io.StringIO()):
+        run_histories(rng, (300 if tier == "quick" else 8000) // nshards)
+
 
 def perturb_tier(rng, t):
     """-> (other tier, class)"""
